@@ -113,7 +113,7 @@ def main():
         "hooks": {
             "guard": "GCH_SMALL_VECTOR_VERIF",
             "enable": "no hooks are needed: all instrumentation is harness-side (element types, allocators, iterators, operator new)",
-            "baseline_off_cmd": "ctest --test-dir /repo/_build -j8 --timeout 900",
+            "baseline_off_cmd": "cmake --build /repo/_build -j 16 && ctest --test-dir /repo/_build -j8 --timeout 900",
             "source_commits": [],
             "add_only": True,
         },
